@@ -12,7 +12,7 @@ WITNESSES = {'all': ['not-succeeds', 'not-fails', 'node-level', 'parsed-not', 'h
 OPTS = {'quick': {'selfcheck_mod': 60, 'budget_s': 280}, 'thorough': {'selfcheck_mod': 600, 'budget_s': 3000}}
 STEP_LIMIT = 1_500_000
 BOUNDS = {
-    'quick': 'G in {p($X), q($X), q(a), r($X, $Y), (p($X), q($X)), (q($X) ; r($X, $Y)), $X = b, $X = $Y, $X == b, $X < 3, eq($X, c)}; not(G) placed first, in the middle and last in '
+    'quick': 'G in {p($X), q($X), q(a), r($X, $Y), (p($X), q($X)), (q($X) ; r($X, $Y)), $X = b, $X = $Y, $X == b, $X < 3, eq($X, c), a call of an undefined predicate}; not(G) placed first, in the middle and last in '
              'conjunctions of up to 3 goals with backtracking neighbours p($X), q($X), r($X, $Y), and in one disjunction shape; answers compared with the reference; at node level: '
              'a Not node is built for each G under substitutions that bind $X to a, b, c or nothing, asked three times: at most one success, the returned substitution set equals the input, '
              'and success iff the reference finds no answer for G; `not(p($X))` also through parse_subgoal',
@@ -22,7 +22,7 @@ OUTSIDE = 'cut or time inside not(...)'
 ASSUMPTIONS = []
 
 GS = [gc('p', X), gc('q', X), gc('q', A('a')), gc('r', X, Y), AND(gc('p', X), gc('q', X)), OR(gc('q', X), gc('r', X, Y)), U(X, A('b')), U(X, Y),
-      gb('equal', X, A('b')), gb('less_than', X, I(3)), gc('eq', X, A('c'))]
+      gb('equal', X, A('b')), gb('less_than', X, I(3)), gc('eq', X, A('c')), gc('nosuch', X), AND(gc('nosuch', X), gc('p', X))]
 NB = [gc('p', X), gc('q', X), gc('r', X, Y)]
 
 
